@@ -227,9 +227,26 @@ func c06APIReturnsSrc(r *an.Run) {
 	}
 	src := paramAt(f, 1)
 	found := false
+	inGrp := map[*ssa.Function]bool{}
+	for _, g := range helperGroup(f, 2) {
+		inGrp[g] = true
+	}
 	for _, c := range an.EqCases(f, func(v ssa.Value) bool {
-		_, isPhi := v.(*ssa.Phi)
-		return isPhi && an.ShortType(v.Type()) == "*ast.File"
+		if an.ShortType(v.Type()) != "*ast.File" {
+			return false
+		}
+		if _, isPhi := v.(*ssa.Phi); isPhi {
+			return true
+		}
+		// the change loop may live in a private helper that hands back the file it produced (or nil)
+		if ex, ok := v.(*ssa.Extract); ok {
+			if call, ok := ex.Tuple.(*ssa.Call); ok {
+				if h := an.StaticCallee(call); h != nil && inGrp[h] && len(callsToGroup(h, "(*"+enginePath+".Change).Replace")) > 0 {
+					return true
+				}
+			}
+		}
+		return false
 	}) {
 		if !an.IsNilConst(c.Key) {
 			continue
@@ -239,9 +256,13 @@ func c06APIReturnsSrc(r *an.Run) {
 		good := ret != nil && ret.Results[0] == ssa.Value(src) && an.IsNilConst(ret.Results[1])
 		r.Check(good, short(f)+"|fout-nil", c.If.Pos(), "when no change produced a file (fout == nil) File.Apply returns its src parameter itself and a nil error")
 		// nothing is formatted before that decision
-		for _, call := range an.CallsTo(f, formatNode, importsProcess) {
+		for _, inner := range callsToGroup(f, formatNode, importsProcess) {
+			call := siteIn(f, inner)
+			if call == nil {
+				continue
+			}
 			r.Check(c.If.Block().Dominates(call.Block()) && unreachableWithout(call.Block(), []an.CtrlEdge{edgeTo(c.If.Block(), c.Else)}),
-				short(f)+"|format-after-decision|"+an.CalleeName(call), call.Pos(), "formatting happens only after the fout != nil decision")
+				short(f)+"|format-after-decision|"+an.CalleeName(inner), call.Pos(), "formatting happens only after the fout != nil decision")
 		}
 	}
 	r.Check(found, short(f)+"|fout-nil-test", f.Pos(), "File.Apply tests whether any change produced a file")
